@@ -707,12 +707,15 @@ func ruleC01UserMethods(p *Prog, a *Anchors, r *Report) {
 // and every activation puts the nesting of its body — at most K_nest counted levels of tags plus K_nest of expressions —
 // in between. A stack overflow ends the process and cannot be recovered from, so the PRODUCT has to stay below what Go's
 // fixed 1 GB stack limit holds. The rule reads the constants off the depth steps and decides the arithmetic; the bytes
-// per level are an estimate (a few hundred: 3·10⁶ level·activations were observed to fit, 5·10⁶ not), stated here and
-// not derived.
-const stackBudgetLevels = 2500000
+// per level are an estimate, stated here and not derived: up to about 1.3 KB (a subscript or call-argument level is
+// variableResolver.resolve + Evaluate + nodeFilteredVariable.Evaluate = 1264 bytes of frames; a for level costs the same;
+// measured by a hunter's demonstration: 800 levels × 1000 activations overflow), so 10⁹ / 1300 ≈ 750 000 levels fit.
+// Products with the other execution bounds (a macro that includes 100 templates deep at every activation) are NOT
+// covered: bounding those needs a stack budget carried through the rendering, which the engine does not have.
+const stackBudgetLevels = 750000
 
 func ruleC01Budget(p *Prog, a *Anchors, r *Report) {
-	r.Begin("R-C01-BUDGET", "the compile-time nesting bound times the largest execution-time recursion bound (macro depth, template depth) stays within the stack budget: 2·K_nest·K_exec ≤ 2.5·10⁶ counted levels", 1)
+	r.Begin("R-C01-BUDGET", "the compile-time nesting bound times the largest execution-time recursion bound (macro depth, template depth) stays within the stack budget: 2·K_nest·K_exec ≤ 7.5·10⁵ counted levels", 1)
 	ctxPtr := types.NewPointer(a.ExecCtx)
 	boundsOf := func(f *ssa.Function, pred func(x ssa.Value) bool) []int64 {
 		var out []int64
@@ -787,7 +790,7 @@ func ruleC01Budget(p *Prog, a *Anchors, r *Report) {
 	case kExec == 0:
 		r.Unk("nesting × recursion", "-", "no execution-time recursion bound on an ExecutionContext counter was found")
 	case 2*kNest*kExec > stackBudgetLevels:
-		r.Bad("nesting × recursion", "-", "nesting bound %d (%s) × recursion bound %d (%s): 2·%d·%d = %d counted levels can be on the stack at once, more than the %d that fit Go's 1 GB limit at a few hundred bytes each — a macro whose body nests its recursive call deeply exhausts the stack before the depth error is reached, which ends the process", kNest, nestAt, kExec, execAt, kNest, kExec, 2*kNest*kExec, stackBudgetLevels)
+		r.Bad("nesting × recursion", "-", "nesting bound %d (%s) × recursion bound %d (%s): 2·%d·%d = %d counted levels can be on the stack at once, more than the %d that fit Go's 1 GB limit at up to 1.3 KB each — a macro whose body nests its recursive call deeply exhausts the stack before the depth error is reached, which ends the process", kNest, nestAt, kExec, execAt, kNest, kExec, 2*kNest*kExec, stackBudgetLevels)
 	default:
 		r.OK("nesting × recursion", "-", "nesting bound %d (%s) × recursion bound %d (%s): 2·%d·%d = %d ≤ %d counted levels", kNest, nestAt, kExec, execAt, kNest, kExec, 2*kNest*kExec, stackBudgetLevels)
 	}
@@ -982,5 +985,90 @@ func ruleC01RuneGuard(p *Prog, a *Anchors, r *Report) {
 	}
 	if n == 0 {
 		r.Trivial("none", "-", "no rune slice converted from a string is sliced with a non-constant bound")
+	}
+}
+
+// R-C01-REWRAP ("within bounded time"). An error that passes a level of a recursion must not be rendered to text and
+// wrapped again at that level: `ctx.Error(err.Error(), token)` copies the whole message once per level, which is
+// quadratic in the depth — a recursion of macros that ends in the depth error took minutes for a 300-byte template.
+// Where execution code turns an `error` into a new execution error by its text, it has to hand on, unwrapped, an error
+// that is already an execution error with a position (a type test for *Error on the way).
+func ruleC01Rewrap(p *Prog, a *Anchors, r *Report) {
+	r.Begin("R-C01-REWRAP", "execution code that builds an execution error from the text of an `error` value does so only for values that are not already positioned execution errors (a *Error type test stands before it): an error is not re-rendered at every level of a recursion it passes", 1)
+	reach := a.ExecReach()
+	errT := types.Universe.Lookup("error").Type()
+	n := 0
+	count := map[string]int{}
+	for _, f := range p.inPkgFuncsSorted(p.allFuncSet()) {
+		if !reach[f] {
+			continue
+		}
+		for _, b := range f.Blocks {
+			for _, in := range b.Instrs {
+				c, ok := in.(*ssa.Call)
+				if !ok || !c.Common().IsInvoke() || c.Common().Method.Name() != "Error" || !types.Identical(c.Common().Value.Type(), errT) {
+					continue
+				}
+				// the text becomes the message of a new execution error
+				wrapped := false
+				for _, ref := range *c.Referrers() {
+					cc, isCall := ref.(*ssa.Call)
+					if !isCall || cc.Common().StaticCallee() == nil {
+						continue
+					}
+					callee := cc.Common().StaticCallee()
+					if recv := callee.Signature.Recv(); recv != nil && structOf(recv.Type()) == a.ExecCtx && errorResultIndex(callee) >= 0 {
+						wrapped = true
+					}
+				}
+				if !wrapped {
+					continue
+				}
+				n++
+				key := p.FuncName(f) + ":wraps-error-text"
+				count[key]++
+				if count[key] > 1 {
+					key += "#" + itoa(int64(count[key]))
+				}
+				ev := c.Common().Value
+				tested := Guarded(in, func(cond ssa.Value, pol bool) bool {
+					// `inner, ok := err.(*Error)`: the not-ok edge, or a test of a field of inner on its failing edge
+					isAssertOf := func(v ssa.Value) bool {
+						if ex, isEx := v.(*ssa.Extract); isEx {
+							v = ex.Tuple
+						}
+						ta, isTA := v.(*ssa.TypeAssert)
+						if !isTA || ta.X != ev {
+							return false
+						}
+						pt, isP := ta.AssertedType.(*types.Pointer)
+						return isP && types.Identical(pt.Elem(), a.Error)
+					}
+					if ex, isEx := cond.(*ssa.Extract); isEx && ex.Index == 1 && !pol && isAssertOf(ex) {
+						return true
+					}
+					if bo, isBo := cond.(*ssa.BinOp); isBo && !pol {
+						if u, isU := bo.X.(*ssa.UnOp); isU {
+							if fa, isFA := u.X.(*ssa.FieldAddr); isFA && isAssertOf(fa.X) {
+								return true
+							}
+						}
+					}
+					// … or the asserted pointer is nil (a typed nil in the error: nothing to hand on)
+					if x, eq, isNil := condIsNilTest(cond); isNil && eq == pol && isAssertOf(x) {
+						return true
+					}
+					return false
+				})
+				if tested {
+					r.OK(key, p.InstrPos(in), "only an error that is not already a positioned execution error is turned into one by its text")
+				} else {
+					r.Bad(key, p.InstrPos(in), "%s renders an error to text and wraps it in a new execution error without asking whether it already is one: the error of a nested macro call is copied once per level it passes, quadratic in the depth (a 300-byte template whose macro recursion ends in the depth error takes minutes to return)", p.FuncName(f))
+				}
+			}
+		}
+	}
+	if n == 0 {
+		r.Trivial("none", "-", "execution code builds no execution error from the text of an error value")
 	}
 }
